@@ -24,8 +24,9 @@ Proof.
   unfold links_ok_b, links_ok. rewrite forallb_forall. intros H sb bb Hin Hl.
   specialize (H _ Hin). simpl in H. rewrite Hl in H. simpl in H.
   apply existsb_exists in H. destruct H as ([st bt] & Ht & Hc). simpl in Hc.
-  rewrite !andb_true_iff in Hc. destruct Hc as [[[H1 H2] H3] H4].
-  apply bytes_eqb_eq in H1, H4. apply path_ltb_iff in H2. exists st, bt. auto.
+  rewrite !andb_true_iff in Hc. destruct Hc as [[[[H1 H2] H3] H5] H4].
+  apply bytes_eqb_eq in H1, H4. apply path_ltb_iff in H2. exists st, bt.
+  repeat split; auto. intros Hr. rewrite Hr in H5. exact H5.
 Qed.
 
 Lemma identity_faithful_b_sound d A B : identity_faithful_b d A B = true -> identity_faithful d A B.
@@ -91,12 +92,12 @@ Qed.
 (* a new name of an inode whose entry shows the identity key of [st] shows the key of every
    honest announcement [b] (same metadata as [st]) *)
 Lemma link_stat_same_file t st b :
-  same_file DMetadata t st = true -> is_reg st = true -> ino_meta_eq st b ->
+  same_file DMetadata t st = true -> is_node st = true -> ino_meta_eq st b ->
   same_file DMetadata (link_stat t b) b = true.
 Proof.
   intros Hs Hr (M1 & M2 & M3 & M4 & M5 & M6 & M7 & _).
-  assert (Hrt : is_reg t = true) by (rewrite (is_reg_mode_eq t st (same_file_mode _ _ _ Hs)); exact Hr).
-  pose proof (is_reg_not_dir _ Hrt) as Hdt.
+  assert (Hrt : is_node t = true) by (rewrite (is_node_mode_eq t st (same_file_mode _ _ _ Hs)); exact Hr).
+  pose proof (is_node_not_dir _ Hrt) as Hdt.
   destruct (sf_fields _ _ Hs Hdt) as (F1 & F2 & F3 & F4 & F5 & _ & F7 & F8).
   unfold link_stat. rewrite Hrt. apply sf_intro; simpl; try congruence.
   exact Hdt.
@@ -424,7 +425,7 @@ Qed.
 (* the entry written for the hard-link entry b of the source: a new name of the inode shown as t *)
 Lemma link_entry_equiv b e t :
   In b LB -> is_hardlink b = true -> de_stat e = link_stat (de_stat t) b ->
-  (forall bb, In (b, bb) B -> de_bytes e = bb) ->
+  (forall bb, In (b, bb) B -> is_reg b = true -> de_bytes e = bb) ->
   (Mh -> same_file DMetadata (link_stat (de_stat t) b) b = true) ->
   (Mh -> Xh -> link_stat (de_stat t) b = b) ->
   veq (Some e) (efind (st_path b) B).
@@ -432,9 +433,8 @@ Proof.
   intros Hb Hl Es Hbytes Hkey Hexact. destruct (B_efind _ Hb) as (bb & Hin & Ef). rewrite Ef. simpl. rewrite Es.
   split; [intros [X|X]; [congruence|auto]|].
   split.
-  { rewrite (link_stat_not_dir _ _ Hl). unfold is_hardlink in Hl. apply andb_true_iff in Hl.
-    symmetry. apply is_reg_not_dir. tauto. }
-  split; [intros _; apply Hbytes; auto|].
+  { rewrite (link_stat_not_dir _ _ Hl). symmetry. apply is_node_not_dir. apply is_hardlink_node; auto. }
+  split; [intros Hr; apply Hbytes; auto|].
   intros X Y _. rewrite (Hexact X Y). apply ino_meta_eq_refl.
 Qed.
 
@@ -445,7 +445,8 @@ Qed.
 
 Lemma not_hardlink_wants st : is_reg st = true -> is_hardlink st = false -> wants_content st = true.
 Proof.
-  unfold is_hardlink, wants_content. intros -> H. simpl in *. apply negb_false_iff in H. exact H.
+  intros Hr H. unfold is_hardlink in H. rewrite (is_reg_is_node _ Hr) in H. unfold wants_content. rewrite Hr.
+  simpl in *. apply negb_false_iff in H. exact H.
 Qed.
 
 (* the target of a hard-link entry has been written before the entry is reached; with an honest
@@ -454,20 +455,20 @@ Lemma link_target D R b :
   dinv D R -> (forall y, In y R -> compare_path (st_path y) (st_path b) <> Lt) ->
   In b LB -> is_hardlink b = true ->
   exists t, alookup (st_linkname b) D = Some t /\ st_is_dir (de_stat t) = false /\
-            (forall bb, In (b, bb) B -> de_bytes t = bb) /\
+            (forall bb, In (b, bb) B -> is_reg b = true -> de_bytes t = bb) /\
             (Mh -> same_file DMetadata (link_stat (de_stat t) b) b = true) /\
             (Mh -> Xh -> link_stat (de_stat t) b = b).
 Proof.
   intros HD Hmin Hb Hl. destruct (B_efind _ Hb) as (bb & Hin & _).
-  destruct (Hlinks _ _ Hin Hl) as (st & bt & Hint & Ep & Hlt & Hreg & Ebt).
+  destruct (Hlinks _ _ Hin Hl) as (st & bt & Hint & Ep & Hlt & Hreg & Hrr & Ebt).
   assert (Hd : done R (st_path st)).
   { eapply done_before; eauto. right. apply (in_map st_path). apply (in_map fst) in Hint. exact Hint. }
   pose proof (dv_P1 _ _ HD _ Hd) as Hv.
   pose proof (efind_in_sorted B (st, bt) HsB Hint) as Ef. simpl in Ef. rewrite Ef in Hv.
   rewrite Ep in Hv. destruct (alookup (st_linkname b) D) as [t|]; [|destruct Hv].
   destruct Hv as (Hs & Hdir & Hb2 & Hmx). exists t. split; auto. split; [|split; [|split]].
-  - rewrite Hdir. apply is_reg_not_dir; auto.
-  - intros bb' Hin'. rewrite (Hb2 Hreg). subst bt.
+  - rewrite Hdir. apply is_node_not_dir; auto.
+  - intros bb' Hin' Hrb. rewrite (Hb2 (Hrr Hrb)). subst bt.
     pose proof (efind_in_sorted B (b, bb) HsB Hin) as E1. pose proof (efind_in_sorted B (b, bb') HsB Hin') as E2.
     simpl in E1, E2. congruence.
   - intros X. apply (link_stat_same_file _ st); auto.
@@ -490,7 +491,7 @@ Proof.
   pose proof (Hxkept Y l bl b bt a ba Hl Hhl Hint Ept Ha Ep Hs) as Exa.
   pose proof (same_file_DMetadata _ _ _ Hs) as Hs'.
   assert (Hda : st_is_dir a = false).
-  { rewrite (same_file_is_dir _ _ _ Hs). apply is_reg_not_dir; auto. }
+  { rewrite (same_file_is_dir _ _ _ Hs). apply is_node_not_dir; auto. }
   destruct (sf_fields _ _ Hs' Hda) as (F1 & F2 & F3 & F4 & F5 & _ & F7 & F8).
   unfold ino_meta_eq. repeat split; auto.
 Qed.
@@ -687,7 +688,7 @@ Proof.
     { cbn [apply_map]. rewrite <- E, Hold. cbn [de_stat de_bytes de_ino]. destruct (st_is_dir b && st_is_dir a) eqn:Edd.
       - apply andb_true_iff in Edd. destruct Edd as [Ed1 Ed2].
         assert (Ehl : is_hardlink b = false).
-        { unfold is_hardlink, is_reg. rewrite Ed1. reflexivity. }
+        { unfold is_hardlink, is_node. rewrite Ed1. reflexivity. }
         eexists; eexists; exists D. split; [reflexivity|]. split.
         { rewrite E. apply (new_entry_equiv b); auto. simpl. intros bb _ Hr. apply is_reg_not_dir in Hr. congruence. }
         split; [reflexivity|]. split; [intros _ _; apply honest_change_nonlink; auto|].
